@@ -316,6 +316,9 @@ func (p *parser) parseBin(min int) *Expr {
 
 func (p *parser) parseUnary() *Expr {
 	t := p.peek()
+	if t.k == "id" && (t.s == "forall" || t.s == "exists") {
+		return p.parseExpr()
+	}
 	if t.k == "op" && (t.s == "!" || t.s == "-" || t.s == "^") {
 		p.next()
 		x := p.parseUnary()
@@ -402,6 +405,7 @@ type Clause struct {
 }
 
 type LoopSpec struct {
+	Uses []*Expr
 	Inv  []*Clause
 	Dec  *Expr
 	Mods []string
@@ -432,6 +436,7 @@ type Contract struct {
 	Fresh    []string // result components declared fresh
 	Decreases *Expr
 	Notes    []string
+	Uses     []*Expr
 }
 
 type SpecFunc struct {
@@ -444,6 +449,8 @@ type SpecFunc struct {
 }
 
 type Lemma struct {
+	Params []string
+	PTypes []string
 	Name string
 	Tags []string
 	E    *Expr
@@ -469,10 +476,11 @@ type Specs struct {
 	TypeAttrs []*TypeAttr
 	Globals   []*GlobalFact
 	Ifaces    map[string]*Contract // "pkg.Iface.Method"
+	Axioms    map[string]*SpecFunc
 }
 
 func NewSpecs() *Specs {
-	return &Specs{Contracts: map[string]*Contract{}, Specs: map[string]*SpecFunc{}, Ifaces: map[string]*Contract{}}
+	return &Specs{Contracts: map[string]*Contract{}, Specs: map[string]*SpecFunc{}, Ifaces: map[string]*Contract{}, Axioms: map[string]*SpecFunc{}}
 }
 
 func parseTags(s string) ([]string, string) {
@@ -541,18 +549,41 @@ func (sp *Specs) LoadSpecLines(lines []string, pkg, file string, external bool) 
 			}
 			sp.Specs[sf.Name] = sf
 			cur = nil
+		case "axiom":
+			// axiom NAME(params): expr   -- assumed schema, instantiated only through 'uses' clauses
+			i := strings.Index(rest, "):")
+			if i < 0 {
+				return fail(fmt.Errorf("axiom needs NAME(params): expr"))
+			}
+			sf, err := parseSpecFunc(rest[:i+1]+" bool = "+rest[i+2:], false)
+			if err != nil {
+				return fail(err)
+			}
+			sp.Axioms[sf.Name] = sf
+			cur = nil
 		case "lemma":
 			i := strings.Index(rest, ":")
 			if i < 0 {
 				return fail(fmt.Errorf("lemma needs name:"))
 			}
 			name := strings.TrimSpace(rest[:i])
+			var pnames, ptypes []string
+			if j := strings.Index(name, "("); j >= 0 {
+				for _, p := range strings.Split(strings.TrimSuffix(name[j+1:], ")"), ",") {
+					f := strings.Fields(p)
+					if len(f) == 2 {
+						pnames = append(pnames, f[0])
+						ptypes = append(ptypes, f[1])
+					}
+				}
+				name = strings.TrimSpace(name[:j])
+			}
 			tags, body := parseTags(rest[i+1:])
 			e, err := ParseExpr(body)
 			if err != nil {
 				return fail(err)
 			}
-			sp.Lemmas = append(sp.Lemmas, &Lemma{Name: name, Tags: tags, E: e, Text: body})
+			sp.Lemmas = append(sp.Lemmas, &Lemma{Name: name, Tags: tags, E: e, Text: body, Params: pnames, PTypes: ptypes})
 			cur = nil
 		case "global":
 			e, err := ParseExpr(rest)
@@ -689,6 +720,15 @@ func (c *Contract) addClause(word, rest string) error {
 		case "emits":
 			c.Emits = append(c.Emits, cl)
 		}
+	case "uses":
+		e, err := ParseExpr(rest)
+		if err != nil {
+			return err
+		}
+		if e.Kind != "call" {
+			return fmt.Errorf("uses expects AXIOM(args)")
+		}
+		c.Uses = append(c.Uses, e)
 	case "props":
 		for _, t := range strings.Split(rest, ",") {
 			c.Props[strings.TrimSpace(t)] = true
@@ -758,6 +798,12 @@ func (c *Contract) addClause(word, rest string) error {
 				return err
 			}
 			ls.Dec = e
+		case "uses":
+			e, err := ParseExpr(f[2])
+			if err != nil {
+				return err
+			}
+			ls.Uses = append(ls.Uses, e)
 		case "modifies":
 			for _, part := range splitTop(f[2], ',') {
 				ls.Mods = append(ls.Mods, strings.TrimSpace(part))
